@@ -78,4 +78,90 @@ theorem pack_existing_setup {w : WM} {iss : List Handle} {s : WS} (hi : Inv ⟨w
     exact spec_body_fold info hi.depsB s.marked (first :: rest) (false, false) _ s [] rfl hsp0 hklt hr.deps rfl
       (fun c hc => (hall c hc).2)
 
+theorem setMarked_self (W : WM) (m : List Handle) (h : W.marked = m) : { W with marked := m } = W := by
+  subst h; rfl
+
+/-- transfer of `Rel` from `s.setEnt k x` (possibly with `k` marked) to a spec state that agrees with it -/
+theorem rel_to_frame {c : CW} {s S' : WS} {k : Nat} {x : Option SEnt} {mk : Bool} (hk : k < s.ents.length)
+    (hr : Rel c (if mk then { s.setEnt k x with marked := insertNat s.marked k } else s.setEnt k x))
+    (hfr : FrameK s S' k) (hal : S'.alive k = x)
+    (hm : S'.marked = (if mk then insertNat s.marked k else s.marked)) : Rel c S' := by
+  have hlen : S'.ents.length = (s.setEnt k x).ents.length := by
+    rw [hfr.len]; simp [WS.setEnt]
+  have halive : ∀ o, S'.alive o = (s.setEnt k x).alive o := by
+    intro o
+    rw [setEnt_alive]
+    by_cases ho : o = k
+    · subst ho; rw [if_pos ⟨rfl, hk⟩]; exact hal
+    · rw [if_neg (fun h => ho h.1)]; exact hfr.others o ho
+  cases mk with
+  | false =>
+    simp only [Bool.false_eq_true, if_false] at hr hm
+    exact rel_of_frame hr hlen halive hfr.deps hfr.lockDepth hfr.nthreads hfr.buffers hm
+  | true =>
+    simp only [if_true] at hr hm
+    exact rel_of_frame hr hlen halive hfr.deps hfr.lockDepth hfr.nthreads hfr.buffers hm
+
+/-- a pack that destroys its (existing) entity -/
+theorem pack_existing_dead {w : WM} {iss : List Handle} {s : WS} (hi : Inv ⟨w, iss⟩) (hb : Bounds ⟨w, iss⟩)
+    (hr : Rel ⟨w, iss⟩ s) (first : Cmd) (rest : List Cmd) (hfc : isCreateCmd first = false)
+    (hall : ∀ c ∈ first :: rest, c.entity = first.entity ∧ crH c = none)
+    {k pi i : Nat} {prow : Row} {ent : SEnt} (hv : w.isValid first.entity = true)
+    (hk : iss[k]? = some first.entity) (hrow : (w.arch pi).rows[i]? = some prow) (hent : prow.ent = first.entity)
+    (hloc : w.locOf first.entity = ⟨some pi, i⟩) (hal : s.alive k = some ent)
+    (hrel : entRel ent ⟨(w.arch pi).mask.zip prow.vals, absShared w.pool (w.arch pi).shared⟩)
+    (hdead : ((first :: rest).foldl bodyFlags (false, false)).1 = true) :
+    PackRefines info w iss s (first :: rest) ((first :: rest).map (specCmdRef (some k))) := by
+  rcases pack_existing_setup info hi hr first rest hfc hall hv hk hrow hloc hal hrel with ⟨happly, hpd, hsp, hfr, hmk⟩
+  unfold PackRefines
+  generalize hfl : (first :: rest).foldl bodyFlags (false, false) = fl at *
+  obtain ⟨dead, mk⟩ := fl
+  simp only at hdead hpd
+  subst hdead
+  generalize hpf : (first :: rest).foldl (pst w.deps) { final := (w.arch pi).mask } = pf at *
+  generalize hSdef : specFold info (s, []) ((first :: rest).map (specCmdRef (some k))) = Sr at *
+  have hord : ordOf iss first.entity = some k := ordOf_unique (issued_nodup (c := ⟨w, iss⟩) hi) hk
+  have hklt : k < s.ents.length := by rw [hr.len]; exact (List.getElem?_eq_some_iff.mp hk).1
+  have hpi : pi < w.archs.length := lt_of_row hrow
+  -- the model side
+  have hfin : w.applyPack info (first :: rest) =
+      ((bodyState info first.entity false w (true, mk)).1, (bodyState info first.entity false w (true, mk)).2) := by
+    rw [happly, packFinish_eq, hpd]; rfl
+  have hDm := destroyNowU_marked info w first.entity
+  have hctl := destroyNowU_ctl info w first.entity
+  have hcore := destroyNowU_valid_refines info (c := ⟨w, iss⟩) hi hb hr hk hv
+  have hbs2 : (bodyState info first.entity false w (true, mk)).2 = (w.destroyNowU info first.entity).2 := rfl
+  -- the spec side
+  unfold SpecPackInv at hsp
+  rw [if_pos hpd] at hsp
+  rw [hfin]
+  have hcb : cbsAgreeNet iss (w.destroyNowU info first.entity).2 Sr.2 := by
+    apply cbsAgreeNet_of (mc := ((w.arch pi).mask.filter (fun c => (info c).callbacks && !([] : Mask).contains c)).map
+      (fun x => ((false, x, k) : SCb)))
+    · rw [destroyNowU_cbs info hv hloc hrow, hent, cbAbs_remove_map hord]
+    · exact pack_agree_dead info hsp.2 (maskOk_nodup (hi.keys.masks pi hpi))
+  cases mk with
+  | false =>
+    have hW : (bodyState info first.entity false w (true, false)).1 = (w.destroyNowU info first.entity).1 := by
+      show ({ (w.destroyNowU info first.entity).1 with marked := w.marked } : WM) = _
+      exact setMarked_self _ _ hDm
+    rw [hW, hbs2]
+    refine ⟨hcore.1, ?_, hcb⟩
+    exact rel_to_frame (mk := false) hklt hcore.2 hfr hsp.1 hmk
+  | true =>
+    have hW : (bodyState info first.entity false w (true, true)).1 =
+        { (w.destroyNowU info first.entity).1 with
+          marked := insertSorted (w.destroyNowU info first.entity).1.marked first.entity } := by
+      show ({ (w.destroyNowU info first.entity).1 with marked := insertSorted w.marked first.entity } : WM) = _
+      rw [hDm]
+    rw [hW, hbs2]
+    have hrg : HRange (w.destroyNowU info first.entity).1.worldId first.entity := by
+      rw [hctl.worldId]; exact valid_range (c := ⟨w, iss⟩) hb hv
+    have hnp : first.entity ∉ createHandles (w.destroyNowU info first.entity).1.buffers := by
+      rw [hctl.buffers]; exact valid_not_pending (c := ⟨w, iss⟩) hi hb hv
+    have hm1 := mark_refines hcore.1 hcore.2 hk hrg hnp
+    have hm2 := mark_rel_always hcore.1 hcore.2 hk hrg
+    refine ⟨hm1.1, ?_, hcb⟩
+    exact rel_to_frame (mk := true) hklt hm2 hfr hsp.1 hmk
+
 end Mustache.Proofs.Refine
